@@ -10,6 +10,7 @@ import LitexProofs.Wishbone.ConvLive
 import LitexProofs.Wishbone.CacheLive
 import LitexProofs.Wishbone.BurstWait
 import LitexProofs.Wishbone.ToCsrBankSide
+import LitexProofs.Wishbone.AddrGlue
 /-
   C07 — Wishbone adapters and memories are transparent to the master: flat byte-addressable memory semantics.
 
@@ -722,5 +723,56 @@ example :
     ops ((downConv c).over (sram sc [5, 6, 7, 8])) (· % 2) ins =
       [{ adr := 1, we := true, sel := [false, true], dat := [0x11, 0x22] },
        { adr := 1, we := false, sel := [true, true], dat := [7, 0x22] }] := by decide
+
+/-! ## The adapters as `SoCBusHandler.add_adapter` composes them (width conversion, then addressing conversion)
+
+  On a byte-addressed main bus (AXI-Lite / AXI) a word-addressed Wishbone interface of another width gets a
+  `wishbone.Converter` to the bus width *and then* the word->byte re-wiring `adapted.adr[shift:] = adr` with
+  `shift = log2(bus bytes)` (the width of the converted interface — seeded change C07-r5m3 took the original one).
+  `gluedMem nb sh M0`: the byte-addressed bus (a byte memory of `nb` lanes behind `adr[sh:]`) seen through that
+  re-wiring; the address functions are b2-c09's `Bridge.Adapter.elemByte` (`glueSubAddr`, imported unchanged). -/
+
+/-- **Converter (narrowing) composed with the addressing shift refines the byte memory**: the wide master sees a
+    flat byte memory in which lane `j` of word `a` is byte `a·nbm + j` — every ratio, partial `sel`, every latency. -/
+theorem down_over_addressing_refines (c : DownCfg) (sh : Nat) (M0 : Mem) (ins : List (Req × Lat))
+    (hm : Classic ((downConv c).over (gluedMem c.nbs sh M0)) ins) :
+    Consistent c.nbm M0 (ops ((downConv c).over (gluedMem c.nbs sh M0)) id ins) ∧
+    AckOnlyStrobed ((downConv c).over (gluedMem c.nbs sh M0)) ins :=
+  (Down.refines c (gluedMem c.nbs sh M0) (fun a => byteToWord sh (wordToByte sh a)) id _
+      (fun a k _ => by simp only [byteToWord_wordToByte, id]) (fun _ => True) (fun _ => True)
+      (fun _ _ _ _ => trivial) (gluedMem_refines c.nbs sh M0)).run M0
+    ⟨Down.ratio_pos c, rfl, rfl⟩ ins hm (fun _ _ => trivial)
+
+/-- **Converter (widening) composed with the addressing shift refines the byte memory.** -/
+theorem up_over_addressing_refines (c : UpCfg) (hpos : 0 < c.nbm) (sh : Nat) (M0 : Mem) (ins : List (Req × Lat))
+    (hm : Classic ((upConv c).over (gluedMem c.nbs sh M0)) ins) :
+    Consistent c.nbm M0 (ops ((upConv c).over (gluedMem c.nbs sh M0)) id ins) ∧
+    AckOnlyStrobed ((upConv c).over (gluedMem c.nbs sh M0)) ins :=
+  (Up.refines c (gluedMem c.nbs sh M0) (fun a => byteToWord sh (wordToByte sh a)) id _ hpos
+      (fun a => by simp only [byteToWord_wordToByte, id]; rw [Nat.mul_comm]; exact (Nat.div_add_mod a c.ratio).symm)
+      (fun _ => True) (fun _ => True) (fun _ _ _ => trivial) (gluedMem_refines c.nbs sh M0)).run M0
+    rfl ins hm (fun _ _ => trivial)
+
+/-- **The byte address on the bus is the byte address the master means**: for a bus of `nbs = 2^sh` byte lanes,
+    sub-word `count` of the wide word `a` goes (through C09's byte map of the addressing glue) to byte address
+    `a·nbm + count·nbs` — the word address shifted by `log2(bus bytes)`, not by `log2(master bytes)`. -/
+theorem glue_byte_address (c : DownCfg) (sh count a : Nat) (hsh : c.nbs = 2 ^ sh) :
+    glueSubAddr c sh count a = a * c.nbm + count * c.nbs := by
+  rw [glueSubAddr_eq, wordToByte, ← hsh, DownCfg.nbm]; ring
+
+/-- The witness of seeded change C07-r5m3: 64-bit master on a 32-bit byte-addressed bus, word 1 = bytes 8..15:
+    sub-words at byte addresses 8 and 12 (the changed code produced 16 and 24). -/
+example : glueSubAddr { nbs := 4, cbits := 1 } 2 0 1 = 8 ∧ glueSubAddr { nbs := 4, cbits := 1 } 2 1 1 = 12 := by decide
+
+/-- Non-vacuity: 32-bit master over a 16-bit byte-addressed bus (`sh = 1`), ratio 2, zero-latency memory holding `x + 1`:
+    read of wide word 1 returns bytes 4..7. -/
+example :
+    let c : DownCfg := { nbs := 2, cbits := 1 }
+    let M0 : Mem := fun x => x + 1
+    let r : Req × Lat := ({ cyc := true, stb := true, we := false, adr := 1, sel := [true, true, true, true], dat := [],
+                            cti := 0, bte := 0 }, ⟨true, []⟩)
+    Classic ((downConv c).over (gluedMem c.nbs 1 M0)) [r, r] ∧
+    (ops ((downConv c).over (gluedMem c.nbs 1 M0)) id [r, r]).map (fun op => (op.adr, op.dat)) = [(1, [5, 6, 7, 8])] := by
+  decide
 
 end Litex.C07
